@@ -297,7 +297,7 @@ def sqrt_node(x):
         from . import normal
         try:
             nf = normal.convert(x)
-            key = (frozenset(nf[0].items()), frozenset(nf[1].items()))
+            key = (frozenset(nf.n.items()), frozenset(nf.den_poly().items()))
         except Exception:
             key = ('id', x.id)
         r = CTX.sqrt_cache.get(key)
@@ -337,6 +337,15 @@ def bor(*bs):
 # ----------------------------------------------------------------------------
 # traversal helpers
 # ----------------------------------------------------------------------------
+def defn_nodes(d):
+    """nodes mentioned by an atom definition"""
+    if d is None:
+        return ()
+    if d[0] == 'min':
+        return tuple(d[1])
+    return (d[1],)
+
+
 def topo(roots, defs=False):
     """post-order list of all nodes reachable from roots (iterative).
     defs=True also follows the definitions of defined atoms."""
@@ -356,9 +365,9 @@ def topo(roots, defs=False):
             if a.id not in seen:
                 stack.append((a, False))
         if defs and n.op == 'v':
-            d = CTX.atoms[n.val].get('defn')
-            if d is not None and d[1].id not in seen:
-                stack.append((d[1], False))
+            for dn in defn_nodes(CTX.atoms[n.val].get('defn')):
+                if dn.id not in seen:
+                    stack.append((dn, False))
     return out
 
 
@@ -411,6 +420,8 @@ class Point:
                 val = math.sqrt(x)
             elif d[0] == 'expr':
                 val = self.eval(d[1])
+            elif d[0] == 'min':
+                val = min(self.eval(x) for x in d[1])
             else:
                 raise EngineLimit(f'unknown definition {d[0]}')
         else:
@@ -467,6 +478,8 @@ class Point:
             info = CTX.atoms[name]
             d = info.get('defn')
             if d is not None:
+                if d[0] == 'min':
+                    return min(ev(x) for x in d[1])
                 x = ev(d[1])
                 return mpmath.sqrt(x) if d[0] == 'sqrt' else x
             if name == 'PI':
@@ -539,7 +552,9 @@ class Point:
                 a, b = cache[n.args[0].id], cache[n.args[1].id]
                 scale = max(abs(a), abs(b), 1e-300)
                 d = (a - b) / scale
-                if abs(d) < 1e-9:
+                if a == b:
+                    r = {'lt': False, 'le': True, 'gt': False, 'ge': True, 'eq': True, 'ne': False}[op]
+                elif abs(d) < 1e-9:
                     r = None       # too close to call in floats
                 else:
                     r = {'lt': d < 0, 'le': d < 0, 'gt': d > 0, 'ge': d > 0,
@@ -928,3 +943,20 @@ class Controller:
 
 class Infeasible(Exception):
     pass
+
+
+def sym_min(*args, **kw):
+    """min() for code under verification: with symbolic arguments the path
+    controller decides which argument is the minimum (one path per feasible
+    arg-min, path condition  x_k <= x_j for all j) and that argument itself is
+    returned, so that the result is identical to one of the inputs."""
+    import builtins
+    seq = list(args[0]) if len(args) == 1 and not isinstance(args[0], Sym) else list(args)
+    if not any(isinstance(x, Sym) for x in seq):
+        return builtins.min(seq, **kw)
+    nodes = [lift(x) for x in seq]
+    for k in range(len(seq)):
+        conj = [cmp('le', nodes[k], nodes[j]) for j in range(len(seq)) if j != k and nodes[j] is not nodes[k]]
+        if not conj or decide(band(*conj) if len(conj) > 1 else conj[0]):
+            return seq[k]
+    raise Infeasible('no argument is the minimum')
